@@ -10,7 +10,7 @@ if [ -d "$WT/SEED_OUT" ]; then rm -rf "$OUT"; cp -r "$WT/SEED_OUT" "$OUT" || exi
 if [ ! -f "$OUT/patch.diff" ] && [ -f "/verif/seeded/$NAME/patch.diff" ]; then mkdir -p "$OUT"; cp /verif/seeded/$NAME/* "$OUT"/; fi
 [ -f "$OUT/patch.diff" ] || { echo "no seed output for $NAME"; exit 2; }
 cd "$WT" || exit 2
-git stash -u -q 2>/dev/null; git checkout -q -- . ; git clean -fdq -e target
+git checkout -q -- . ; git clean -fdq -e target
 LOG="$OUT/confirm.log"
 if [ "${SKIP_CONFIRM:-0}" = "1" ]; then echo "confirm: skipped (already confirmed)"; else
 : > "$LOG"
